@@ -7,13 +7,37 @@
 //!  * visibility: a reader acquired after a commit walks exactly the
 //!    committed content and finds every committed RRset;
 //!  * aborts: nothing of an abandoned write is ever visible.
+//!
+//! A reader's observation is taken through EVERY entry point of the
+//! `ReadableZone` trait and over every question the content can answer:
+//!  * questions: QNAMES (incl. the apex) x QTYPES (A, SOA, NS, CNAME), each
+//!    answer compared in full (rcode, AA, answer, authority incl. the SOA of
+//!    negative answers, additional) as rendered by `Answer::to_message`;
+//!  * synchronous route: `query()` / `walk()`;
+//!  * asynchronous route, awaited at once: `query_async()` / `walk_async()`
+//!    must agree with the synchronous route of the same reader at the same
+//!    moment (entry-point agreement), `is_async()` must not flip while held;
+//!  * asynchronous route, deferred: futures of `query_async()` / `walk_async()`
+//!    created when the reader is acquired are kept across the following
+//!    writer steps and awaited at the next observation, or after the reader
+//!    has been released: they must still show the version the reader was
+//!    pinned to.
+//! Observations, stored answers and pending futures are NOT part of the BFS
+//! state key: for a correct library they are a function of the reader's
+//! pinned version, which the model state holds.
 use domain::base::iana::Rtype;
-use domain::zonetree::{ReadableZone, WritableZone, WritableZoneNode, Zone};
+use domain::zonetree::error::OutOfZone;
+use domain::zonetree::types::StoredName;
+use domain::zonetree::{Answer, ReadableZone, SharedRrset, WalkOp, WritableZone, WritableZoneNode, Zone};
 use mc::zfix::*;
 use mc::*;
 use rayon::prelude::*;
 use serde_json::{json, Value};
 use std::collections::{BTreeSet, HashSet};
+use std::future::Future;
+use std::pin::Pin;
+use std::sync::atomic::{AtomicU64, Ordering};
+use std::sync::{Arc, Mutex};
 
 #[derive(Clone, Copy, Debug, PartialEq, Eq, Hash, PartialOrd, Ord)]
 enum Op {
@@ -47,7 +71,23 @@ enum Op {
 }
 
 const NAMES: [&str; 3] = ["a", "b.a", "c"];
-const QNAMES: [&str; 6] = ["a", "b.a", "c", "x.a", "y.b.a", "*.a"];
+const QNAMES: [&str; 7] = ["a", "b.a", "c", "x.a", "y.b.a", "*.a", ""];
+/// every type the zone content of this harness can hold (A data, the apex SOA and NS, the CNAME at "c")
+const QTYPES: [Rtype; 4] = [Rtype::A, Rtype::SOA, Rtype::NS, Rtype::CNAME];
+/// index of (QNAMES[qi], QTYPES[ti]) in an observation vector
+const fn ix(qi: usize, ti: usize) -> usize {
+    qi * QTYPES.len() + ti
+}
+fn cases() -> impl Iterator<Item = (usize, usize, &'static str, Rtype)> {
+    (0..QNAMES.len()).flat_map(|qi| (0..QTYPES.len()).map(move |ti| (qi, ti, QNAMES[qi], QTYPES[ti])))
+}
+fn show_q(q: &str) -> &str {
+    if q.is_empty() {
+        "@"
+    } else {
+        q
+    }
+}
 
 #[derive(Clone, Debug, PartialEq, Eq, Hash, PartialOrd, Ord)]
 struct Model {
@@ -67,17 +107,200 @@ struct Real {
     rt: tokio::runtime::Runtime,
     writer: Option<(Box<dyn WritableZone>, Option<Box<dyn WritableZoneNode>>)>,
     stale: Option<Box<dyn WritableZoneNode>>,
-    readers: [Option<(Box<dyn ReadableZone>, Obs)>; 2],
+    readers: [Option<Held>; 2],
 }
 
+/// a reader that is being held: the reader, what it showed when it was
+/// acquired, and futures of its asynchronous entry points that have been
+/// created but not awaited yet
+struct Held {
+    rd: Box<dyn ReadableZone>,
+    first: Taken,
+    is_async: bool,
+    /// None only in the state after the last step of a history (nothing follows)
+    pending: Option<Pending>,
+}
+
+/// evidence counters of the observation oracles (verdict steps only)
+static N_PINNED: AtomicU64 = AtomicU64::new(0);
+static N_AGREE: AtomicU64 = AtomicU64::new(0);
+static N_DEFERRED: AtomicU64 = AtomicU64::new(0);
+static N_AFTER_RELEASE: AtomicU64 = AtomicU64::new(0);
+static N_NEW_READER: AtomicU64 = AtomicU64::new(0);
+
+type Walked = BTreeSet<(Vec<u8>, u16, Vec<u8>)>;
+type Fut<T> = Pin<Box<dyn Future<Output = T> + Send + Sync>>;
+
+/// One observation of a reader through one route: the full answers to all
+/// `cases()` and the records its walk enumerates.
 #[derive(Clone, PartialEq, Eq, Debug)]
 struct Obs {
     answers: Vec<Observed>,
-    walk: BTreeSet<(Vec<u8>, u16, Vec<u8>)>,
+    walk: Walked,
+}
+
+/// An observation through the synchronous route as the reader handed it
+/// out: the `Answer` values are rendered to messages only when a verdict
+/// needs them (rendering is the expensive part, and most acquisitions are
+/// replayed prefixes).
+struct Taken {
+    answers: Vec<Answer>,
+    walk: Walked,
+}
+
+impl Taken {
+    fn render(&self) -> Obs {
+        Obs { answers: cases().zip(&self.answers).map(|((_, _, q, t), a)| observe_answer(a, &rel(q), t)).collect(), walk: self.walk.clone() }
+    }
+}
+
+/// synchronous route: query() / walk()
+fn take(r: &dyn ReadableZone) -> Taken {
+    Taken { answers: cases().map(|(_, _, q, t)| r.query(abs_name(&rel(q)), t).expect("query: in zone")).collect(), walk: walk(r).0 }
 }
 
 fn observe(r: &dyn ReadableZone) -> Obs {
-    Obs { answers: QNAMES.iter().map(|q| query(r, &rel(q), Rtype::A)).collect(), walk: walk(r).0 }
+    take(r).render()
+}
+
+/// a WalkOp that collects what it is called with (same normal form as zfix::walk)
+fn walk_collector() -> (WalkOp, Arc<Mutex<Walked>>) {
+    let out: Arc<Mutex<Walked>> = Arc::new(Mutex::new(BTreeSet::new()));
+    let o2 = out.clone();
+    let op: WalkOp = Box::new(move |owner: StoredName, rrset: &SharedRrset, _at_cut: bool| {
+        let mut g = o2.lock().unwrap();
+        let ow: Vec<Vec<u8>> = owner.iter().filter(|l| !l.is_root()).map(|l| wire::lower(l.as_slice())).collect();
+        for d in rrset.data() {
+            let mut buf = Vec::new();
+            use domain::base::rdata::ComposeRecordData;
+            d.compose_canonical_rdata(&mut buf).unwrap();
+            g.insert((wire::to_wire(&ow), rrset.rtype().to_int(), buf));
+        }
+    });
+    (op, out)
+}
+
+/// futures of the asynchronous entry points, created but not awaited
+struct Pending {
+    queries: Vec<Fut<Result<Answer, OutOfZone>>>,
+    walk: Fut<()>,
+    walked: Arc<Mutex<Walked>>,
+}
+
+/// asynchronous route, first half: call query_async() for all cases and walk_async()
+fn start_async(r: &dyn ReadableZone) -> Pending {
+    let queries = cases().map(|(_, _, q, t)| r.query_async(abs_name(&rel(q)), t)).collect();
+    let (op, walked) = walk_collector();
+    Pending { queries, walk: r.walk_async(op), walked }
+}
+
+/// asynchronous route, second half: drive the futures on the harness's runtime
+fn finish_async(rt: &tokio::runtime::Runtime, p: Pending) -> Obs {
+    let answers = cases().zip(p.queries).map(|((_, _, q, t), f)| observe_answer(&rt.block_on(f).expect("query_async: in zone"), &rel(q), t)).collect();
+    rt.block_on(p.walk);
+    let walk = p.walked.lock().unwrap().clone();
+    Obs { answers, walk }
+}
+
+/// which parts of two full answers differ
+fn differs(a: &Observed, b: &Observed) -> String {
+    let mut v = Vec::new();
+    if a.rcode != b.rcode {
+        v.push("rcode");
+    }
+    if a.aa != b.aa {
+        v.push("aa");
+    }
+    if a.answer != b.answer {
+        v.push("answer");
+    }
+    if a.authority != b.authority {
+        v.push("authority");
+    }
+    if a.additional != b.additional {
+        v.push("additional");
+    }
+    if a.dup != b.dup {
+        v.push("dup");
+    }
+    v.join("+")
+}
+
+fn brief(o: &Observed) -> String {
+    let soa: Vec<u32> = o.authority.iter().chain(o.answer.iter()).filter(|r| r.1 == 6 && r.2.len() >= 20).map(|r| u32::from_be_bytes(r.2[r.2.len() - 20..r.2.len() - 16].try_into().unwrap())).collect();
+    format!("{:?} rcode={} answer={:?} authority={} rec (SOA serials {:?}) additional={} rec", o.kind(), o.rcode, o.answer.iter().map(|r| (r.1, &r.2)).collect::<Vec<_>>(), o.authority.len(), soa, o.additional.len())
+}
+
+/// `now` (taken through `via`) must be what the reader showed when it was acquired
+fn check_pinned(m: &Model, i: usize, via_q: &str, via_w: &str, first: &Obs, now: &Obs, out: &mut Vec<Viol>) {
+    match via_q {
+        "query" => &N_PINNED,
+        v if v.contains("released") => &N_AFTER_RELEASE,
+        _ => &N_DEFERRED,
+    }
+    .fetch_add(1, Ordering::Relaxed);
+    if now == first {
+        return;
+    }
+    let pinned_nodes = &m.reader_nodes[i];
+    let pinned = m.readers[i].unwrap();
+    let later_commit = m.committed.len() - 1 > pinned;
+    for (qi, ti, q, t) in cases() {
+        let (f, n) = (&first.answers[ix(qi, ti)], &now.answers[ix(qi, ti)]);
+        if f == n {
+            continue;
+        }
+        let qn = rel(q);
+        let created = (1..=qn.len()).any(|k| {
+            let p = qn[..k].to_vec();
+            !pinned_nodes.contains(&p) && m.nodes.contains(&p)
+        });
+        let (a, b) = (f.kind(), n.kind());
+        let only_shape = n.answer.is_empty() && b != Kind::Data;
+        if created && only_shape && matches!(b, Kind::NoData | Kind::NxDomain) {
+            out.push(Viol {
+                sig: format!("C09|pinned-reader|observation-changed|cause=node-created-by-later-writer-is-unversioned|->{:?}", b),
+                what: format!("reader pinned at version {pinned}: {}/{t} was {:?}, is now {:?} (through {via_q}) after a later writer created the node (no commit needed)", show_q(q), a, b),
+            });
+        } else {
+            out.push(Viol {
+                sig: format!("C09|pinned-reader|observation-changed|{:?}->{:?}|node-created={}|stale-node-write={}|via={via_q}|qtype={t}|differs={}|later-commit={later_commit}", a, b, created, m.stale_node, differs(f, n)),
+                what: format!("reader pinned at version {pinned} (current version {}): {}/{t} was [{}] when the reader was acquired, is [{}] now through {via_q}", m.committed.len() - 1, show_q(q), brief(f), brief(n)),
+            });
+        }
+    }
+    if now.walk != first.walk {
+        out.push(Viol {
+            sig: format!("C09|pinned-reader|walk-changed|stale-node-write={}|via={via_w}|later-commit={later_commit}", m.stale_node),
+            what: format!("reader pinned at version {pinned} (current version {}): walk() had {} records when the reader was acquired, {via_w} now has {} ({} gone, {} new)", m.committed.len() - 1, first.walk.len(), now.walk.len(), first.walk.difference(&now.walk).count(), now.walk.difference(&first.walk).count()),
+        });
+    }
+}
+
+/// the asynchronous entry points, awaited at once, must show what the
+/// synchronous ones show at the same moment
+fn check_agreement(m: &Model, i: usize, sync: &Obs, asy: &Obs, out: &mut Vec<Viol>) {
+    N_AGREE.fetch_add(1, Ordering::Relaxed);
+    if sync == asy {
+        return;
+    }
+    let pinned = m.readers[i].unwrap();
+    let later_commit = m.committed.len() - 1 > pinned;
+    for (qi, ti, q, t) in cases() {
+        let (s, a) = (&sync.answers[ix(qi, ti)], &asy.answers[ix(qi, ti)]);
+        if s != a {
+            out.push(Viol {
+                sig: format!("C09|reader|entry-points-disagree|query_async-vs-query|{:?}-vs-{:?}|qtype={t}|differs={}|later-commit={later_commit}|writer-open={}", a.kind(), s.kind(), differs(s, a), m.working.is_some()),
+                what: format!("reader pinned at version {pinned} (current version {}): {}/{t} is [{}] through query() but [{}] through query_async() awaited at once", m.committed.len() - 1, show_q(q), brief(s), brief(a)),
+            });
+        }
+    }
+    if sync.walk != asy.walk {
+        out.push(Viol {
+            sig: format!("C09|reader|entry-points-disagree|walk_async-vs-walk|missing={}|extra={}|later-commit={later_commit}|writer-open={}", (sync.walk.difference(&asy.walk).count() > 0) as u8, (asy.walk.difference(&sync.walk).count() > 0) as u8, m.working.is_some()),
+            what: format!("reader pinned at version {pinned} (current version {}): walk() enumerates {} records, walk_async() awaited at once {} ({} missing, {} extra)", m.committed.len() - 1, sync.walk.len(), asy.walk.len(), sync.walk.difference(&asy.walk).count(), asy.walk.difference(&sync.walk).count()),
+        });
+    }
 }
 
 fn initial_content() -> Content {
@@ -119,8 +342,11 @@ struct Viol {
     what: String,
 }
 
-/// Apply `op` to model and real state; check oracles.
-fn step(m: &mut Model, r: &mut Real, op: Op, out: &mut Vec<Viol>) {
+/// Apply `op` to model and real state; check oracles. `fin`: this is the
+/// last step of the history, the one whose verdict is wanted (earlier steps
+/// were judged when they were the last one): only then the oracles and the
+/// observations that nothing later depends on are evaluated.
+fn step(m: &mut Model, r: &mut Real, op: Op, fin: bool, out: &mut Vec<Viol>) {
     match op {
         Op::WOpen | Op::WOpenDiff => {
             let w = r.rt.block_on(r.zone.write());
@@ -296,75 +522,99 @@ fn step(m: &mut Model, r: &mut Real, op: Op, out: &mut Vec<Viol>) {
         }
         Op::RAcq(i) => {
             let rd = r.zone.read();
-            let obs = observe(rd.as_ref());
+            let first = take(rd.as_ref());
+            let is_async = rd.is_async();
             let k = m.committed.len() - 1;
             m.readers[i as usize] = Some(k);
             m.reader_nodes[i as usize] = m.nodes.clone();
-            // visibility: exactly the last committed content
-            let c = &m.committed[k];
-            let want = content_as_walk(c);
-            if obs.walk != want {
-                let stale_write = m.stale_node;
-                out.push(Viol {
-                    sig: format!("C09|new-reader|walk-differs-from-last-committed-version|missing={}|extra={}|after-stale-node-write={}", (want.difference(&obs.walk).count() > 0) as u8, (obs.walk.difference(&want).count() > 0) as u8, stale_write),
-                    what: format!("reader acquired at version {k} walks {} records, committed content has {}", obs.walk.len(), want.len()),
-                });
+            if fin {
+                // entry-point agreement for a brand-new reader
+                let obs = first.render();
+                let asy = finish_async(&r.rt, start_async(rd.as_ref()));
+                check_agreement(m, i as usize, &obs, &asy, out);
+                new_reader_oracles(m, k, &obs, out);
             }
-            // the CNAME state of a name is a node "special" with its own version history
-            let want_cname = !c.rrset(&rel("c"), Rtype::CNAME).is_empty();
-            if (obs.answers[2].kind() == Kind::Cname) != want_cname {
-                out.push(Viol { sig: format!("C09|new-reader|cname-state-differs-from-committed-version|committed-is-cname={want_cname}"), what: format!("reader at version {k}: c/A answered as {:?} but the committed version has CNAME at c: {want_cname}", obs.answers[2].kind()) });
-            }
-            for (qi, q) in QNAMES.iter().enumerate() {
-                let own = c.rrset(&rel(q), Rtype::A);
-                let got: BTreeSet<Vec<u8>> = obs.answers[qi].answer.iter().filter(|x| x.1 == 1).map(|x| x.2.clone()).collect();
-                let _ = own;
-                // Whether the right answer kind is given is C08's business (and has
-                // known findings there). Here: whatever data is served must be held
-                // by the committed content, never by uncommitted or abandoned work.
-                let all: BTreeSet<Vec<u8>> = c.records().iter().filter(|(_, r)| matches!(r, Rd::A(_))).map(|(_, r)| r.wire()).collect();
-                if !got.is_subset(&all) {
-                    out.push(Viol { sig: format!("C09|new-reader|serves-data-not-in-committed-version|after-stale-node-write={}", m.stale_node), what: format!("reader at version {k}: {q}/A answers {:?} which no committed record holds", got) });
-                }
-            }
-            r.readers[i as usize] = Some((rd, obs));
+            // futures created now, awaited after whatever comes next
+            let pending = if fin { None } else { Some(start_async(rd.as_ref())) };
+            r.readers[i as usize] = Some(Held { rd, first, is_async, pending });
         }
         Op::RObs(i) => {
-            let (rd, first) = r.readers[i as usize].as_ref().unwrap();
-            let now = observe(rd.as_ref());
-            if &now != first {
-                // classify
-                let pinned_nodes = &m.reader_nodes[i as usize];
-                for (qi, q) in QNAMES.iter().enumerate() {
-                    if now.answers[qi] != first.answers[qi] {
-                        let qn = rel(q);
-                        let created = (1..=qn.len()).any(|k| {
-                            let p = qn[..k].to_vec();
-                            !pinned_nodes.contains(&p) && m.nodes.contains(&p)
-                        });
-                        let (a, b) = (first.answers[qi].kind(), now.answers[qi].kind());
-                        let only_shape = now.answers[qi].answer.is_empty() && b != Kind::Data;
-                        if created && only_shape && matches!(b, Kind::NoData | Kind::NxDomain) {
-                            out.push(Viol {
-                                sig: format!("C09|pinned-reader|observation-changed|cause=node-created-by-later-writer-is-unversioned|->{:?}", b),
-                                what: format!("reader pinned at version {}: {q}/A was {:?}, is now {:?} after a later writer created the node (no commit needed)", m.readers[i as usize].unwrap(), a, b),
-                            });
-                        } else {
-                            out.push(Viol {
-                                sig: format!("C09|pinned-reader|observation-changed|{:?}->{:?}|node-created={}|stale-node-write={}", a, b, created, m.stale_node),
-                                what: format!("reader pinned at version {}: {q}/A was {:?} with {:?}, is now {:?} with {:?}", m.readers[i as usize].unwrap(), a, first.answers[qi].answer, b, now.answers[qi].answer),
-                            });
-                        }
-                    }
-                }
-                if now.walk != first.walk {
-                    out.push(Viol { sig: format!("C09|pinned-reader|walk-changed|stale-node-write={}", m.stale_node), what: format!("reader pinned at version {}: walk() had {} records, now {}", m.readers[i as usize].unwrap(), first.walk.len(), now.walk.len()) });
-                }
+            if !fin {
+                return; // an observation changes nothing; its verdict was given when it was the last step
+            }
+            let rt = &r.rt;
+            let h = r.readers[i as usize].as_mut().unwrap();
+            let first = h.first.render();
+            // 1. futures created earlier (at acquisition, or at the previous observation), awaited now
+            let deferred = finish_async(rt, h.pending.take().expect("a held reader has pending futures"));
+            check_pinned(m, i as usize, "query_async-future-created-earlier-awaited-now", "walk_async-future-created-earlier-awaited-now", &first, &deferred, out);
+            // 2. the synchronous route now
+            let now = observe(h.rd.as_ref());
+            check_pinned(m, i as usize, "query", "walk", &first, &now, out);
+            // 3. the asynchronous route now, awaited at once
+            let asy = finish_async(rt, start_async(h.rd.as_ref()));
+            check_agreement(m, i as usize, &now, &asy, out);
+            if h.rd.is_async() != h.is_async {
+                out.push(Viol { sig: "C09|pinned-reader|is_async-changed-while-held".into(), what: format!("reader pinned at version {}: is_async() was {} when acquired, is {} now", m.readers[i as usize].unwrap(), h.is_async, !h.is_async) });
             }
         }
         Op::RRel(i) => {
-            r.readers[i as usize] = None;
+            let h = r.readers[i as usize].take().unwrap();
+            if fin {
+                // the reader goes away first; futures it handed out earlier are awaited afterwards
+                let Held { rd, first, pending, .. } = h;
+                drop(rd);
+                let first = first.render();
+                let deferred = finish_async(&r.rt, pending.expect("a held reader has pending futures"));
+                check_pinned(m, i as usize, "query_async-future-awaited-after-reader-released", "walk_async-future-awaited-after-reader-released", &first, &deferred, out);
+            }
             m.readers[i as usize] = None;
+        }
+    }
+}
+
+/// visibility: a reader acquired now shows exactly the last committed content
+fn new_reader_oracles(m: &Model, k: usize, obs: &Obs, out: &mut Vec<Viol>) {
+    N_NEW_READER.fetch_add(1, Ordering::Relaxed);
+    let c = &m.committed[k];
+    let want = content_as_walk(c);
+    if obs.walk != want {
+        let stale_write = m.stale_node;
+        out.push(Viol {
+            sig: format!("C09|new-reader|walk-differs-from-last-committed-version|missing={}|extra={}|after-stale-node-write={}", (want.difference(&obs.walk).count() > 0) as u8, (obs.walk.difference(&want).count() > 0) as u8, stale_write),
+            what: format!("reader acquired at version {k} walks {} records, committed content has {}", obs.walk.len(), want.len()),
+        });
+    }
+    // the CNAME state of a name is a node "special" with its own version history
+    let want_cname = !c.rrset(&rel("c"), Rtype::CNAME).is_empty();
+    for ti in [0, 3] {
+        // c/A is answered with the CNAME, c/CNAME with the CNAME itself
+        let o = &obs.answers[ix(2, ti)];
+        if (o.kind() == Kind::Cname) != want_cname {
+            out.push(Viol { sig: format!("C09|new-reader|cname-state-differs-from-committed-version|committed-is-cname={want_cname}"), what: format!("reader at version {k}: c/{} answered as {:?} but the committed version has CNAME at c: {want_cname}", QTYPES[ti], o.kind()) });
+        }
+    }
+    // Whether the right answer kind is given is C08's business (and has
+    // known findings there). Here: whatever data is served, in whichever
+    // section (the SOA of a negative answer included), must be held by the
+    // committed content, never by an older version, uncommitted or abandoned work.
+    let all: BTreeSet<(u16, Vec<u8>)> = c.records().iter().map(|(_, r)| (r.rtype().to_int(), r.wire())).collect();
+    for (qi, ti, q, t) in cases() {
+        let o = &obs.answers[ix(qi, ti)];
+        for (section, set) in [("answer", &o.answer), ("authority", &o.authority), ("additional", &o.additional)] {
+            for rec in set {
+                if !all.contains(&(rec.1, rec.2.clone())) {
+                    out.push(Viol { sig: format!("C09|new-reader|serves-data-not-in-committed-version|after-stale-node-write={}|section={section}|rtype={}", m.stale_node, Rtype::from_int(rec.1)), what: format!("reader at version {k}: the {section} section for {}/{t} holds type {} data {:?} which no record of the committed version holds", show_q(q), Rtype::from_int(rec.1), rec.2) });
+                }
+            }
+        }
+        // the apex SOA and NS sets are ordinary RRsets of the version: asked for directly they are served as they are
+        if q.is_empty() && (t == Rtype::SOA || t == Rtype::NS) {
+            let own: BTreeSet<Vec<u8>> = c.rrset(&vec![], t).iter().map(|r| r.wire()).collect();
+            let got: BTreeSet<Vec<u8>> = o.answer.iter().filter(|x| x.1 == t.to_int()).map(|x| x.2.clone()).collect();
+            if own != got {
+                out.push(Viol { sig: format!("C09|new-reader|apex-rrset-differs-from-committed-version|qtype={t}|after-stale-node-write={}", m.stale_node), what: format!("reader at version {k}: @/{t} answers {:?}, the committed version holds {:?}", got, own) });
+            }
         }
     }
 }
@@ -405,7 +655,7 @@ fn replay(hist: &[Op], out: &mut Vec<Viol>) -> (Model, Real) {
     let (mut m, mut r) = fresh();
     for (i, op) in hist.iter().enumerate() {
         let mut sink = Vec::new();
-        step(&mut m, &mut r, *op, if i + 1 == hist.len() { out } else { &mut sink });
+        step(&mut m, &mut r, *op, i + 1 == hist.len(), if i + 1 == hist.len() { out } else { &mut sink });
     }
     if m.stale_written {
         // one class: everything observed after a write through a node handle
@@ -521,6 +771,11 @@ fn main() {
         stats.count_n(&format!("frontier.depth{}", d + 1), next.len() as u64);
         frontier = next;
     }
+    let per = (QNAMES.len() * QTYPES.len() + 1) as u64; // full answers + the walk
+    for (k, c) in [("observe.new-reader-vs-committed-content", &N_NEW_READER), ("observe.held-reader-sync-vs-acquisition", &N_PINNED), ("observe.async-awaited-at-once-vs-sync", &N_AGREE), ("observe.async-future-kept-across-steps-vs-acquisition", &N_DEFERRED), ("observe.async-future-awaited-after-release-vs-acquisition", &N_AFTER_RELEASE)] {
+        stats.count_n(k, c.load(Ordering::Relaxed));
+        stats.count_n("observe.answers-and-walks-compared", c.load(Ordering::Relaxed) * per);
+    }
     if let Some(h) = frontier.last() {
         samples.push(json!(h.iter().map(|o| format!("{:?}", o)).collect::<Vec<_>>()));
     }
@@ -531,7 +786,8 @@ fn main() {
             "traces_validated_against_impl": transitions,
             "evaluations": transitions,
             "distinct_nontrivial": stats.distinct_count(),
-            "rule": "BFS over all interleavings (operation granularity) of one writer at a time (open with and without diff collection/update (with read-back through the writer)/remove/remove_all/turning a name into a CNAME and back/commit with serial bump/commit/commit-then-reopen (multi-batch)/a second writer's attempt to get the zone while the first is open/commit that unwinds at its documented panic point (diff collected + node handle alive)/drop; thorough: also commit-keeping-the-node and writes through that stale node) and two readers (acquire/observe/release) to the depth bound, every history replayed on a fresh real zone; states deduplicated on (model state, sorted Debug rendering of the real zone incl. version vectors)",
+            "rule": "BFS over all interleavings (operation granularity) of one writer at a time (open with and without diff collection/update (with read-back through the writer)/remove/remove_all/turning a name into a CNAME and back/commit with serial bump/commit/commit-then-reopen (multi-batch)/a second writer's attempt to get the zone while the first is open/commit that unwinds at its documented panic point (diff collected + node handle alive)/drop; thorough: also commit-keeping-the-node and writes through that stale node) and two readers (acquire/observe/release) to the depth bound, every history replayed on a fresh real zone; states deduplicated on (model state, sorted Debug rendering of the real zone incl. version vectors; observations and pending futures are not part of the key). A reader's observation = full answers (rcode, AA, answer, authority incl. the SOA of negative answers, additional; via Answer::to_message) to 7 names (incl. the apex) x 4 types (A, SOA, NS, CNAME) + the walk, taken through every ReadableZone entry point: query()/walk(); query_async()/walk_async() awaited at once (must agree with the synchronous route at the same moment); query_async()/walk_async() futures created at acquisition and kept across the following writer steps, awaited at the next observation or after the reader was released (must show the pinned version); is_async() stable while held. New readers: walk equals the committed content, every record in every section of every answer is held by the committed version, apex SOA/NS answers equal the committed RRsets",
+            "observation": {"qnames": QNAMES.iter().map(|q| show_q(q)).collect::<Vec<_>>(), "qtypes": QTYPES.iter().map(|t| t.to_string()).collect::<Vec<_>>(), "entry_points": ["query", "walk", "query_async (awaited at once)", "walk_async (awaited at once)", "query_async (future kept across later steps)", "walk_async (future kept across later steps)", "query_async/walk_async (future awaited after release)", "is_async"], "questions_per_observation": QNAMES.len() * QTYPES.len()},
             "exhaustive": true,
             "depth": depth,
             "alphabet": ops.iter().map(|o| format!("{:?}", o)).collect::<Vec<_>>(),
